@@ -14,7 +14,8 @@
 (* Pre-flight (never a violation): RunL must be legal, its output must equal *)
 (* `observed` and, for plain programs, FMachine!Run.                        *)
 (*                                                                         *)
-(* Judgement: one pass over RunL(...).log.  For every execution instance    *)
+(* Judgement: DataflowJudge!Misses over RunL(...).log (clauses D U L C R).  *)
+(* For every execution instance                                             *)
 (* (Enter..Exit window, events of the window's own call depth) of node n:   *)
 (*  D  every location written in the window: its variable is in sets[n].d   *)
 (*     (definitions of a DO variable by its own DO construct are exempt:    *)
@@ -36,7 +37,7 @@
 (* array was written where the scalar rule would see a kill, "w"/"a" value   *)
 (* from an earlier write / from the caller).                                *)
 (***************************************************************************)
-EXTENDS FMachineLog, Json, IOUtils
+EXTENDS DataflowJudge, Json, IOUtils
 Cases == JsonDeserialize(IOEnv.CASES)
 
 RECURSIVE InVal(_)
@@ -53,108 +54,6 @@ InputOf(c) == TLCEval([n \in {c.input[i][1] : i \in 1..Len(c.input)} |->
 NodeSets(c) == TLCEval([i \in 1..Len(c.sets) |->
                   [d |-> ToSet(c.sets[i].d), u |-> ToSet(c.sets[i].u), l |-> ToSet(c.sets[i].l),
                    c |-> ToSet(c.sets[i].c), r |-> ToSet(c.sets[i].r)]])
-
-(* ---------------------------------------------------------------- the scan *)
-\* Z = [fr: stack of frames, bad: set of misses, n: counters]
-\* frame = [args: dummy names, wr: locations written so far in the frame, wins: stack of open windows]
-\* window = [id, wr: locations written in the window, wv: variables written in the window,
-\*           prevW/curW: locations written in earlier iterations / the current iteration (loops),
-\*           cv: variables written in the current iteration,
-\*           segW: locations written in the current execution of the window's statement list,
-\*           pts: inspection points of that list execution <<[id, cand, kv]>>]
-NewWin(id) == [id |-> id, wr |-> {}, wv |-> {}, prevW |-> {}, curW |-> {}, cv |-> {}, segW |-> {}, pts |-> <<>>]
-Loc(ev) == <<ev.v, ev.ix>>
-
-OnRead(P, Z, ev, NS) ==
-  LET fi == ev.d + 1
-      f == Z.fr[fi]
-      l == Loc(ev)
-      v == ev.v
-      nw == Len(f.wins)
-      leaf == f.wins[nw].id
-      src == IF l \in f.wr THEN "w" ELSE IF v \in f.args THEN "a" ELSE "n"
-      b1 == UNION {LET w == f.wins[j] IN
-                   IF l \in w.wr THEN {}
-                   ELSE LET aux == IF v \in w.wv THEN "p" ELSE src IN
-                        (IF v \in NS[w.id].u THEN {} ELSE {<<"U", w.id, v, leaf, aux>>})
-                        \cup (IF v \in NS[w.id].l THEN {} ELSE {<<"L", w.id, v, leaf, aux>>})
-                   : j \in 1..nw}
-      b2 == UNION {LET w == f.wins[j] IN
-                   IF l \in w.prevW /\ l \notin w.curW /\ v \notin NS[w.id].c
-                   THEN {<<"C", w.id, v, leaf, IF v \in w.cv THEN "p" ELSE "-">>} ELSE {}
-                   : j \in 1..nw}
-      b3 == UNION {LET w == f.wins[j] IN
-                   UNION {LET pt == w.pts[k] IN
-                          IF l \in pt.cand /\ v \notin NS[pt.id].r
-                          THEN {<<"R", pt.id, v, leaf, IF v \in pt.kv THEN "p" ELSE "-">>} ELSE {}
-                          : k \in 1..Len(w.pts)}
-                   : j \in 1..nw}
-  IN [Z EXCEPT !.bad = @ \cup b1 \cup b2 \cup b3, !.n.reads = @ + 1]
-
-OnWrite(P, Z, ev, NS) ==
-  LET fi == ev.d + 1
-      f == Z.fr[fi]
-      l == Loc(ev)
-      v == ev.v
-      nw == Len(f.wins)
-      leaf == f.wins[nw].id
-      b1 == IF ev.e = "WL" THEN {}
-            ELSE UNION {IF v \in NS[f.wins[j].id].d THEN {} ELSE {<<"D", f.wins[j].id, v, leaf, "-">>} : j \in 1..nw}
-      upd(w) == IF ev.e = "WL" THEN [w EXCEPT !.wr = @ \cup {l}, !.wv = @ \cup {v}]
-                ELSE [w EXCEPT !.wr = @ \cup {l}, !.wv = @ \cup {v}, !.curW = @ \cup {l}, !.cv = @ \cup {v}, !.segW = @ \cup {l},
-                               !.pts = TLCEval([k \in 1..Len(w.pts) |-> IF l \in w.pts[k].cand
-                                                                THEN [w.pts[k] EXCEPT !.cand = @ \ {l}, !.kv = @ \cup {v}]
-                                                                ELSE [w.pts[k] EXCEPT !.kv = @ \cup {v}]])]
-      wins2 == TLCEval([j \in 1..nw |-> upd(f.wins[j])])
-  IN [Z EXCEPT !.bad = @ \cup b1, !.fr[fi].wr = @ \cup {l}, !.fr[fi].wins = wins2, !.n.writes = @ + 1]
-
-OnEnter(P, Z, ev) ==
-  LET fi == ev.d + 1
-      f == Z.fr[fi]
-      nw == Len(f.wins)
-      \* the new node is a statement of the list its parent window is executing: inspection point before it
-      wins1 == IF nw = 0 \/ f.wins[nw].segW = {} THEN f.wins
-               ELSE [f.wins EXCEPT ![nw].pts = Append(@, [id |-> ev.id, cand |-> f.wins[nw].segW, kv |-> {}])]
-  IN [Z EXCEPT !.fr[fi].wins = Append(wins1, NewWin(ev.id)), !.n.windows = @ + 1,
-               !.n.points = @ + (IF nw = 0 \/ f.wins[nw].segW = {} THEN 0 ELSE 1)]
-
-OnExit(P, Z, ev) ==
-  LET fi == ev.d + 1
-      f == Z.fr[fi]
-      nw == Len(f.wins)
-  IN IF nw = 0 \/ f.wins[nw].id # ev.id THEN [Z EXCEPT !.bad = @ \cup {<<"M", ev.id, "unbalanced-exit", 0, "-">>}]
-     ELSE [Z EXCEPT !.fr[fi].wins = SubSeq(f.wins, 1, nw - 1)]
-
-\* a new iteration of loop ev.id: its window is the innermost open one
-OnIter(P, Z, ev) ==
-  LET fi == ev.d + 1
-      f == Z.fr[fi]
-      nw == Len(f.wins)
-      w == f.wins[nw]
-  IN IF nw = 0 \/ w.id # ev.id THEN [Z EXCEPT !.bad = @ \cup {<<"M", ev.id, "iter-outside-loop", 0, "-">>}]
-     ELSE [Z EXCEPT !.fr[fi].wins[nw] = [w EXCEPT !.prevW = @ \cup w.curW, !.curW = {}, !.cv = {}, !.segW = {}, !.pts = <<>>],
-                    !.n.iters = @ + 1]
-
-Step(P, Z, ev, NS) ==
-  CASE ev.e = "R" -> OnRead(P, Z, ev, NS)
-    [] ev.e \in {"W", "WL"} -> OnWrite(P, Z, ev, NS)
-    [] ev.e = "E" -> OnEnter(P, Z, ev)
-    [] ev.e = "X" -> OnExit(P, Z, ev)
-    [] ev.e = "I" -> OnIter(P, Z, ev)
-    [] ev.e = "F" -> IF Len(Z.fr) # ev.d THEN [Z EXCEPT !.bad = @ \cup {<<"M", 0, "frame-depth", 0, "-">>}]
-                     ELSE [Z EXCEPT !.fr = Append(@, [args |-> ToSet(Unit(P, ev.v).args), wr |-> {}, wins |-> <<>>]), !.n.frames = @ + 1]
-    [] ev.e = "G" -> [Z EXCEPT !.fr = SubSeq(@, 1, Len(@) - 1)]
-    [] OTHER -> [Z EXCEPT !.bad = @ \cup {<<"M", 0, "unknown-event", 0, "-">>}]
-
-\* left fold over log[lo..hi] by halving (the recursion depth stays logarithmic in the log length)
-RECURSIVE ScanRange(_, _, _, _, _, _)
-ScanRange(P, log, lo, hi, Z, NS) ==
-  IF lo > hi THEN Z
-  ELSE IF lo = hi THEN Step(P, Z, log[lo], NS)
-  ELSE LET mid == (lo + hi) \div 2 IN ScanRange(P, log, mid + 1, hi, ScanRange(P, log, lo, mid, Z, NS), NS)
-
-Z0 == [fr |-> <<>>, bad |-> {}, n |-> [reads |-> 0, writes |-> 0, windows |-> 0, iters |-> 0, frames |-> 0, points |-> 0]]
-Misses(P, log, NS) == ScanRange(P, log, 1, Len(log), Z0, NS)
 
 (* ---------------------------------------------------------------- verdicts *)
 \* <<ok, clause, position, misses, counters>>
